@@ -377,7 +377,7 @@ def sx_style(st, normal_bold=False):
     return '(3)'
 def sx_block(b, nb=False):
     if b['t'] == 'p': return '(0 %d %d %s (%s))' % (b['pid'], b['ppr'], sx_style(b['style'], nb), ' '.join(sx_node(n) for n in b['nodes']))
-    return '(1 %d (%s))' % (b.get('tok', 0), ' '.join('(%s)' % ' '.join('(%d (%s))' % (c.get('tok', 0), ' '.join(sx_block(x, nb) for x in c['blocks'])) for c in r) for r in b['rows']))
+    return '(1 %d (%s))' % (b.get('tok', 0), ' '.join('(%s)' % ' '.join('(%d (%s))' % (c.get('span', 1) * 10 + {None: 0, 'restart': 1, 'continue': 2}[c.get('vm')], ' '.join(sx_block(x, nb) for x in c['blocks'])) for c in r) for r in b['rows']))
 def sx_doc(d, normal_bold=False):
     return '((%s) (%s) %d)' % (' '.join('(%d (%s))' % (s['kind'], ' '.join(sx_block(b, normal_bold) for b in s['blocks'])) for s in d['stories']),
                                ' '.join('(%s %s %s %s %s)' % (sx_str(c['id']), sx_str(c['author']), sx_str(c.get('date') or ''), sx_str(c['text']), ('(1 %s)' % sx_str(c['parent'])) if c.get('parent') else '()') for c in d['comments']),
@@ -408,7 +408,7 @@ def un_block(x):
     if x[0] == 0:
         st = x[3]; style = ['N', bool(st[1])] if st[0] == 0 else ['H', st[1]] if st[0] == 1 else ['T'] if st[0] == 2 else ['O']
         return {'t': 'p', 'pid': x[1], 'ppr': x[2], 'style': style, 'nodes': [un_node(n) for n in x[4]]}
-    return {'t': 'tbl', 'tok': x[1], 'rows': [[{'tok': c[0], 'span': 1, 'vm': None, 'blocks': [un_block(b) for b in c[1]]} for c in r] for r in x[2]]}
+    return {'t': 'tbl', 'tok': x[1], 'rows': [[{'tok': 0, 'span': max(1, c[0] // 10), 'vm': [None, 'restart', 'continue'][c[0] % 10], 'blocks': [un_block(b) for b in c[1]]} for c in r] for r in x[2]]}
 def un_doc(x):
     return {'stories': [{'kind': s[0], 'blocks': [un_block(b) for b in s[1]]} for s in x[0]],
             'comments': [{'id': un_str(c[0]), 'author': un_str(c[1]), 'date': un_str(c[2]), 'text': un_str(c[3]), 'parent': un_str(c[4][1]) if c[4] else None} for c in x[1]],
